@@ -63,6 +63,16 @@ def battery(rng, tier):
         for _ in range(3):
             rng.shuffle(ops)
             out.append(Case("shared-object", "det.shared", [base, json.dumps(ops)]))
+        sops = []
+        for _ in range(rng.randrange(2, 7)):
+            k = rng.choice(["contains", "in", "filter", "filter", "str", "hash", "pre", "eq"])
+            if k in ("contains", "in"): sops.append([k, gen.spell(rng, gen.rand_v(rng), ws=False)])
+            elif k == "filter": sops.append([k, [gen.spell(rng, rng.choice(gen.neighbours(rng, gen.rand_v(rng))), ws=False) for _ in range(rng.randrange(0, 4))]])
+            else: sops.append([k])
+        sbase = gen_spec.spec_string(rng, op=rng.choice(gen_spec.OPS[:7]))[0]
+        for _ in range(3):
+            rng.shuffle(sops)
+            out.append(Case("shared-object", "det.shared.spec", [sbase, json.dumps(sops)]))
     return out
 
 def streams(rng, tier):
@@ -148,7 +158,7 @@ def extra_checks(rng, tier, core, replay=None):
     # operation sequences on a shared object: the same multiset of operations in another order must give the same answers
     groups = {}
     for i, c in enumerate(cases):
-        if c.cmd == "det.shared":
+        if c.cmd in ("det.shared", "det.shared.spec"):
             k = (c.args[0], json.dumps(sorted(json.loads(c.args[1]), key=json.dumps)))
             groups.setdefault(k, []).append(i)
     for k, ids in groups.items():
